@@ -44,7 +44,7 @@ def main():
             p = sh(f'cd {wt} && /venv/bin/python -m pytest -q -x -p no:cacheprovider beanquery --deselect beanquery/query_render_test.py 2>&1 | tail -3', env=env)
             res['repo_tests'] = p.stdout.strip().splitlines()[-1] if p.stdout.strip() else ''
         for pid in pids:
-            p = sh(f'cd {VERIF} && VERIF_REPO={wt} ./check {pid} {tier}', env=dict(os.environ, VERIF_REPO=wt, VERIF_EVIDENCE_DIR='/tmp/seedtest_evidence', VERIF_REPLAY_DIR='/tmp/seedtest_replay'))
+            p = sh(f'cd {VERIF} && VERIF_REPO={wt} ./check {pid} {tier}', env=dict(os.environ, VERIF_REPO=wt, VERIF_EVIDENCE_DIR=f'{wt}_ev', VERIF_REPLAY_DIR=f'{wt}_rp'))
             viol = re.findall(r'^VIOLATION .*$', p.stdout, re.M)
             res['checks'][pid] = {'rc': p.returncode, 'violations': viol[:3],
                                   'detail': [l for l in p.stdout.splitlines() if l.startswith('  ')][:2]}
@@ -54,6 +54,8 @@ def main():
                 shutil.copy(m.group(1), os.path.join(d, f'caught_by_{pid}.json'))
     finally:
         sh(f'git -C /repo worktree remove --force {wt}')
+        shutil.rmtree(f'{wt}_ev', ignore_errors=True)
+        shutil.rmtree(f'{wt}_rp', ignore_errors=True)
     print(json.dumps(res, indent=1))
     return 0
 
